@@ -67,6 +67,10 @@ type scheduler struct {
 	sites   map[string]int
 	accept  func(site string) bool // the yield points this kind of op line schedules at; any other point is passed through
 	quiet   bool                   // set by the running thread around code whose yield points are not part of the op
+	// where every thread is parked ("" = running or finished) and the step it is in; maintained by the controller, may be
+	// read by the one thread that is running
+	parkedAt []string
+	curStep  []int
 }
 
 // active is the scheduler of the op line being executed; exactly one controlled goroutine runs at any time (the one
@@ -107,6 +111,7 @@ func runThreadsB(n int, accept func(site string) bool, blocked func(t int, parke
 	state := make([]int, n)
 	parkedAt := make([]string, n)
 	curStep := make([]int, n)
+	s.parkedAt, s.curStep = parkedAt, curStep
 	outs = make([][]string, n)
 	wait := func(t int) {
 		ev := <-s.events
@@ -183,6 +188,14 @@ type thread struct {
 }
 
 func exec(c px.Context, op string, args []sx.Sexp) (res core.Result) {
+	if op == "structrace" {
+		return execStructRace(args)
+	}
+	if op == "cacherace" && len(args) == 0 {
+		// answered by the model side from the regenerated table of lazily initialised fields: `none`, or the site that
+		// publishes an object before it is complete
+		return core.Result{Out: "none", Pred: "ok"}
+	}
 	if op == "lockrace" && len(args) == 0 {
 		// answered by the model side from the regenerated lock-set table: `none`, or the racing pair of access sites
 		return core.Result{Out: "none", Pred: "ok"}
@@ -750,6 +763,10 @@ func progSlots(p []gstep) int {
 
 func gen(g *core.G) {
 	g.Emit("lockrace")
+	g.Emit("cacherace")
+	// free-running: the first use of the member map of a big shared Struct type
+	g.Emit("structrace 20000 3")
+	g.Emit("structrace 5000 5")
 	a := nm("type", "a", "r")
 	A := nm("type", "A", "r")
 	// 1. exhaustive: two threads, programs of <= 2 steps over a two-level chain and one name, ALL schedules
